@@ -16,7 +16,7 @@ func init() {
 	Register(&Property{
 		ID: "C05", Level: "exploration",
 		Rule: "E1, two drivers. (i) requests: n in 2..4 (thorough 5) alternatives x m in {1,2} criteria x values {0,1,2} full product; options (per-criterion threshold shape out of 7, gain/cost, weights k, " +
-			"distillation function out of 4, extra not-considered alternative) within 2 deviations of the default; plus a three-criteria veto grid (n=2, values {0,1,2}^6, 4 threshold shapes per criterion full product x 4 weight vectors x 2 distillation functions). (ii) credibility matrices fed to the exported RankAscending/RankDescending: " +
+			"distillation function out of 5, extra not-considered alternative) within 2 deviations of the default; plus a three-criteria veto grid (n=2, values {0,1,2}^6, 4 threshold shapes per criterion full product x 4 weight vectors x 2 distillation functions). (ii) credibility matrices fed to the exported RankAscending/RankDescending: " +
 			"all 3x3 matrices with off-diagonal entries in {0,0.25,0.5,0.75,1} (thorough: all 4x4 over {0,0.5,0.75,1}) x 4 distillation functions. " +
 			"Oracle: independent set-based reference implementation of credibility + both distillations + the link rule. " +
 			"distinct_nontrivial = distinct (instance, index vector) with >=2 classes in some distillation.",
@@ -370,7 +370,7 @@ func c05Run(s *Shard) {
 			for i, k := range idx {
 				flat[i] = lv[k]
 			}
-			for _, d := range eleDists[1:] {
+			for _, d := range eleDists[1:4] {
 				c := &Case{Prop: "C05", Kind: "matrix", Params: M{"n": nn, "sigma": flat, "a": d.A, "b": d.B}}
 				s.Evals++
 				s.Begin(c)
